@@ -3,6 +3,7 @@ From Model Require Import Str Sexp Http Template Table Curly DetectRoute Jsr311 
 From Spec Require Import RouteSpec RankSpec.
 From Proofs Require Import RankProofs RankRouteProofs JsrOutcomeProofs OrderProofs.
 From Coq Require Import Permutation.
+From Model Require Import Registry.
 
 (* Service level, CurlyRouter: the service SelectRoute works with has the greatest score
    among the services that claim the URL, so a service is never chosen when another
@@ -215,3 +216,30 @@ Proof.
   vm_compute in H. discriminate H.
 Qed.
 Print Assumptions C03_refuted_custom_verb.
+
+(* Through ServeHTTP the ServeMux stands in front of the routers, and what it knows depends on the ORDER of the Add
+   calls: once a service whose pattern is "/" is registered, later services get no pattern of their own.  The
+   order-independence clause, stated for ServeHTTP over the registration model (Registry.v), is FALSE of the faithful
+   model and of the code (known finding K-C03-3; Dispatch is not affected, see C03_order_curly / C03_order_jsr): *)
+Definition C03_order_servehttp_statement : Prop :=
+  forall (O : oracles) (rt : router) (adds adds' : list regop) (s s' : cstate) (req : request),
+    Permutation adds adds' ->
+    (forall o, In o adds -> exists root routes, o = RAdd root routes) ->
+    cs_run cs_init adds 0 = (s, None) -> cs_run cs_init adds' 0 = (s', None) ->
+    serve_http O rt s req = serve_http O rt s' req.
+
+Theorem C03_refuted_root_service_position : ~ C03_order_servehttp_statement.
+Proof.
+  intros H.
+  pose (O := {| o_lower := lower_ascii; o_rx := fun _ _ => false; o_rxfull := fun _ _ => false |}).
+  pose (r2 := {| r_id := 2; r_method := L "POST"; r_rel := L "/"; r_consumes := []; r_produces := [];
+                 r_conds := []; r_noct := []; r_enc := None |}).
+  pose (a1 := RAdd (L "/") []). pose (a2 := RAdd (L "/a/") [r2]).
+  pose (req := {| rq_method := L "POST"; rq_path := L "/a"; rq_headers := []; rq_clen := 0 |}).
+  specialize (H O Jsr311 [a1; a2] [a2; a1] (fst (cs_run cs_init [a1; a2] 0)) (fst (cs_run cs_init [a2; a1] 0)) req
+                (perm_swap a2 a1 [])).
+  assert (Hadds : forall o, In o [a1; a2] -> exists root routes, o = RAdd root routes).
+  { intros o [<-|[<-|[]]]; eexists; eexists; reflexivity. }
+  specialize (H Hadds eq_refl eq_refl). vm_compute in H. discriminate H.
+Qed.
+Print Assumptions C03_refuted_root_service_position.
